@@ -65,6 +65,9 @@ class Ctx:
     # -- recording -----------------------------------------------------------
     def ob(self, rule: str, construct: str, verdict: str, detail: str = "", loc: str = "",
            derived: Any = "", required: Any = ""):
+        if rule in self._rename and self._rename[rule] is None:
+            # a shared rule function run for the sake of some of its rules: the others are not filed under this property
+            return Obligation(rule, construct, verdict, detail, loc, "", "")
         rule = self._rename.get(rule, rule)
         o = Obligation(rule, construct, verdict, detail, loc,
                        T.show(derived, 600) if not isinstance(derived, str) else derived,
